@@ -33,7 +33,14 @@ from pbt.common import HarnessError, Stats, Sub, Violation, canon, guarded  # no
 
 
 def _import_curies() -> None:
+    import logging
+
     import curies
+
+    for name in ("curies", "rdflib"):  # keep library log chatter out of the check output
+        lg = logging.getLogger(name)
+        lg.addHandler(logging.NullHandler())
+        lg.propagate = False
 
     where = Path(curies.__file__).resolve()
     if SRC not in where.parents:
